@@ -11,12 +11,12 @@ GEN = ["Handlers"]
 VO = ["Properties/C05.vo", "Extract/D_Client.vo", "Extract/D_Server.vo"]
 MODULE = "Properties.C05"
 THEOREMS = ["c05_store_partial", "c05_delete_partial", "c05_touch_partial", "c05_flush_partial", "c05_arith_partial", "c05_noreply_effect", "c05_reply_iff",
-            "c05_e2e_delete", "c05_e2e_touch", "c05_e2e_flush", "c05_e2e_arith", "c05_e2e_store"]
+            "c05_e2e_delete", "c05_e2e_touch", "c05_e2e_flush", "c05_e2e_arith", "c05_e2e_store", "c05_e2e_cas", "c05_e2e_set_many", "c05_e2e_delete_many"]
 DRIVER = "D_Client"
 TECHNIQUE = ("Coq proof: a specification server (in-memory map with expiry and cas versions); for every state of it the client's "
              "reading of the reply line is the documented result of what the server did; end to end on the Client model (Hoare "
-             "logic, exact consumption of the reply) for every one-command operation; retrievals, cas and multi-key operations "
-             "covered by differential runs against an independent abstract-map oracle")
+             "logic, exact consumption of the reply) for every one-command operation, cas, set_many and delete_many (retrievals: C04); "
+             "plus differential runs against an independent abstract-map oracle")
 LEVEL_TEXT = ("c05_store/delete/touch/flush/arith_partial: for EVERY server state (so after every history and clock advance) and all "
               "arguments, the line Spec/Server.v answers is accepted by the client's reply table for that verb and is read as the "
               "documented value (True/False/None, the new counter, MemcacheClientError for a non-numeric item); c05_noreply_effect, "
@@ -24,8 +24,11 @@ LEVEL_TEXT = ("c05_store/delete/touch/flush/arith_partial: for EVERY server stat
               "c05_e2e_delete/touch/flush/arith/store: on a connected client with nothing pending, a fault-free transport and "
               "the specification server as peer, run_op of set/add/replace/append/prepend (one key), delete, incr, decr, touch, "
               "flush_all returns exactly the documented result, advances the server by exactly that command and leaves nothing "
-              "unread -- for every server state, key, value and argument, hence along every history of such calls. PARTIAL: "
-              "retrievals (C04), cas, multi-key operations and calls that reconnect first are checked, not proved end to end.")
+              "unread -- for every server state, key, value and argument, hence along every history of such calls; c05_e2e_cas: the "
+              "same for cas (True / False / None as stored, changed, absent); c05_e2e_set_many, c05_e2e_delete_many: the server reads "
+              "the batch as exactly the intended commands, executes them in order, the client reads one line per command and returns "
+              "[] / True. Retrievals end to end: C04. PARTIAL: gat/gats, calls that reconnect first and the Pooled/Hash stacks are "
+              "checked, not proved end to end.")
 LEVEL_NOTE = ("Trusted: Coq kernel; Spec/Server.v as the reading of protocol.txt (compared with harness/refserver.py on every run); "
               "the hand model's correspondence with base.py. No axioms.")
 TRUSTED = ["Coq 8.16.1 kernel; no axioms",
